@@ -41,6 +41,11 @@ META = {
                   ('musicxml_parser', 'KeySignature._parse'),
                   ('musicxml_parser', 'TimeSignature._parse'),
                   ('musicxml_parser', 'Tempo._parse'),
+                  ('musicxml_parser', 'ChordSymbol._parse'),
+                  ('musicxml_parser', 'ChordSymbol._parse_pitch'),
+                  ('musicxml_parser', 'ChordSymbol._parse_degree'),
+                  ('musicxml_parser', 'ChordSymbol._alter_to_string'),
+                  ('musicxml_parser', 'ChordSymbol.get_figure_string'),
                   ('musicxml_reader', 'musicxml_to_sequence_proto')],
     'assumptions': [
         'complete measures (the voice-1 durations of a measure add up to the '
@@ -50,7 +55,10 @@ META = {
         'durations, octave (0..9), alter (-2..2), fifths (-7..7), transpose '
         '(-12..12), MIDI channel/program, voice are symbolic',
         'score structure from the templates single, chord, rest, two_voices, '
-        'two_measures, two_parts',
+        'two_measures, two_parts, retranspose, harmony (one <harmony> '
+        'with root / kind / one degree / bass / offset; step letters, kind '
+        'and degree value concrete per job, the three alters and the offset '
+        'symbolic)',
     ],
     'bounds': {
         'quick': 'templates with <=3 notes per measure, <=2 measures, <=2 parts',
@@ -58,8 +66,15 @@ META = {
                     '{4/4,3/4,6/8,2/2} x tempi {60,97.3,120}',
     },
     'outside': ['XML text / tokenisation', '.mxl container', 'chord symbol '
-                'kinds/degrees', 'incomplete (pickup) measures'],
+                'kinds beyond the 12 in the harness table, several degrees '
+                'per symbol', 'incomplete (pickup) measures'],
 }
+
+# MusicXML <kind> values -> the figure abbreviation used by note_seq
+_KIND = {'major': '', 'minor': 'm', 'augmented': 'aug', 'diminished': 'dim',
+         'dominant': '7', 'major-seventh': 'maj7', 'minor-seventh': 'm7',
+         'half-diminished': 'm7b5', 'suspended-fourth': 'sus',
+         'major-sixth': '6', 'dominant-ninth': '9', 'power': '5'}
 
 _STEP_PC = {'C': 0, 'D': 2, 'E': 4, 'F': 5, 'G': 7, 'A': 9, 'B': 11}
 
@@ -127,6 +142,8 @@ def h_score(c):
   qpm = c.params['qpm']
   mode = c.params.get('mode')  # 'major' | 'minor' | 'dorian' | None
   b = _Builder(c)
+  assert (D * 4) % beat_type == 0, (
+      'job outside the property: a beat must be a whole number of divisions')
   measure_len = D * 4 * beats // beat_type
   # the key is symbolic in the single-measure templates; the larger templates
   # (whose paths multiply with the number of notes) use a fixed key
@@ -161,7 +178,7 @@ def h_score(c):
   steps = c.params.get('steps', ['C', 'E', 'G'])
 
   def durs(names, total):
-    ds = [c.int(n, 1, 64) for n in names]
+    ds = [c.int(n, 1, max(64, total)) for n in names]
     c.assume(c.eq(c.Sum(ds), total))
     for n, d in zip(names, ds):
       b.vals[n] = d
@@ -227,6 +244,56 @@ def h_score(c):
     parts_xml.append(xml)
     scripts.append([[('tempo', qpm), ('note', 0, 'C', 1), ('note', 1, 'D', 1)],
                     [('tempo', q2), ('note', 2, 'E', 1), ('note', 3, 'F', 1)]])
+  elif tpl == 'harmony':
+    # <harmony> between two notes: root / kind / one degree / bass / offset
+    hp = c.params['harmony']
+    durs(['n0_dur', 'n1_dur'], measure_len)
+    ra = c.int('root_alter', -2, 2)
+    hx = ('<harmony><root><root-step>%s</root-step><root-alter>%s</root-alter>'
+          '</root><kind>%s</kind>' % (hp['root'], b.num('root_alter', ra),
+                                      hp['kind']))
+    harmony = {'root': hp['root'], 'ra': ra, 'kind': hp['kind']}
+    if hp.get('degree'):
+      dv, dt = hp['degree']
+      da = c.int('degree_alter', -2, 2)
+      if dt == 'alter':
+        c.assume(c.Not(c.eq(da, 0)))  # "alter by zero" is not well-formed
+      hx += ('<degree><degree-value>%d</degree-value><degree-alter>%s'
+             '</degree-alter><degree-type>%s</degree-type></degree>' %
+             (dv, b.num('degree_alter', da), dt))
+      harmony['degree'] = (dv, dt, da)
+    if hp.get('bass'):
+      ba = c.int('bass_alter', -2, 2)
+      hx += ('<bass><bass-step>%s</bass-step><bass-alter>%s</bass-alter></bass>'
+             % (hp['bass'], b.num('bass_alter', ba)))
+      harmony['bass'] = (hp['bass'], ba)
+    if hp.get('offset'):
+      off = c.int('h_offset', -8, 8)
+      c.assume(b.vals['n0_dur'] + off >= 0)
+      hx += '<offset>%s</offset>' % b.num('h_offset', off)
+      harmony['offset'] = off
+    hx += '</harmony>'
+    xml = ('<measure number="1">' + attributes() + tempo(qpm) +
+           _note_xml(b, 0, 'C', voice=1) + hx +
+           _note_xml(b, 1, 'E', voice=1, with_alter=False) + '</measure>')
+    parts_xml.append(xml)
+    scripts.append([[('tempo', qpm), ('note', 0, 'C', 1),
+                     ('harmony', harmony), ('note', 1, 'E', 1)]])
+  elif tpl == 'retranspose':
+    # a transposing part that changes its transposition in the second measure
+    # (possibly back to concert pitch: <chromatic>0</chromatic>)
+    t2 = c.int('transpose2', -12, 12)
+    durs(['n0_dur'], measure_len)
+    durs(['n1_dur'], measure_len)
+    xml = ('<measure number="1">' + attributes(with_transpose=True) +
+           tempo(qpm) + _note_xml(b, 0, 'C', voice=1) +
+           '</measure><measure number="2"><attributes><transpose><chromatic>%s'
+           '</chromatic></transpose></attributes>' % b.num('transpose2', t2) +
+           _note_xml(b, 1, 'G', voice=1, with_alter=False) + '</measure>')
+    parts_xml.append(xml)
+    scripts.append([[('tempo', qpm), ('transpose', transpose),
+                     ('note', 0, 'C', 1)],
+                    [('transpose', t2), ('note', 1, 'G', 1)]])
   elif tpl == 'two_parts':
     durs(['n0_dur', 'n1_dur'], measure_len)
     durs(['n2_dur'], measure_len)
@@ -269,6 +336,7 @@ def h_score(c):
   exp = []
   cur_qpm = 120.0
   tempos = []
+  chords = []
   for pi, measures in enumerate(scripts):
     t = 0
     tr = 0
@@ -283,6 +351,11 @@ def h_score(c):
           cur_qpm = float(item[1])
           if pi == 0:
             tempos.append((t, cur_qpm))
+        elif item[0] == 'transpose':
+          tr = item[1]
+        elif item[0] == 'harmony':
+          hm = item[1]
+          chords.append((t + hm.get('offset', 0) * (60.0 / cur_qpm) / D, hm))
         elif item[0] in ('note', 'chord', 'rest'):
           i = item[1]
           dur = b.vals['n%d_dur' % i]
@@ -303,7 +376,10 @@ def h_score(c):
           t = t + b.vals[item[1]] * (60.0 / cur_qpm) / D
   got = [(n.pitch, n.start_time, n.end_time, n.voice, n.part, n.instrument,
           n.program) for n in seq.notes]
-  c.check(K.multiset_eq(c, got, exp),
+  # times are compared up to 1e-9 relative: the parser multiplies by the
+  # concrete double STANDARD_PPQ / divisions, which is not exact for e.g. 24
+  # divisions, while the reference divides exactly
+  c.check(K.multiset_eq(c, got, exp, approx=(1, 2)),
           'one note per pitched <note>: pitch = step/alter/octave + '
           'transposition, onset/duration by the cursor arithmetic, voice, '
           'part, MIDI channel and program')
@@ -311,7 +387,7 @@ def h_score(c):
   c.check(len(seq.key_signatures) >= 1, 'a key signature is reported')
   ks = seq.key_signatures[0]
   eff = fifths
-  if transpose is not None and tpl == 'single':
+  if transpose is not None and tpl in ('single', 'retranspose'):
     # the written key moves with the part's transposition; only checked for
     # the untransposed templates
     eff = None
@@ -335,10 +411,36 @@ def h_score(c):
   c.check(len(seq.time_signatures) == 1,
           'complete measures add no further time signatures')
   c.check(len(seq.tempos) == len(tempos) and bool(c.And(
-      [c.And(c.eq(a.time, t_), c.approx(a.qpm, q_, 1e-9))
+      [c.And(c.approx(a.time, t_, 1e-9), c.approx(a.qpm, q_, 1e-9))
        for a, (t_, q_) in zip(seq.tempos, tempos)] or [True])),
           'tempo marks at the times they occur')
   c.check(len(seq.part_infos) == len(parts_xml), 'one part_info per part')
+  # ---- chord symbols
+  c.check(len(seq.text_annotations) == len(chords),
+          'one chord-symbol annotation per <harmony>')
+  alter_str = {-2: 'bb', -1: 'b', 0: '', 1: '#', 2: '##'}
+  for ta, (tm, hm) in zip(seq.text_annotations, chords):
+    if hm['kind'] == 'none':
+      want = 'N.C.'
+    else:
+      want = hm['root'] + alter_str[c.concretize(hm['ra'])] + _KIND[hm['kind']]
+      if 'degree' in hm:
+        dv, dt, da = hm['degree']
+        da = c.concretize(da)
+        if dt == 'add':
+          want += '(%s%d)' % (alter_str[da] or 'add', dv)
+        elif dt == 'subtract':
+          want += '(no%d)' % dv
+        else:
+          want += '(%s%d)' % (alter_str[da], dv)
+      if 'bass' in hm:
+        want += '/' + hm['bass'][0] + alter_str[c.concretize(hm['bass'][1])]
+    c.check(ta.text == want,
+            'chord symbol figure: root, kind, degrees, bass as declared')
+    c.check(c.eq(ta.annotation_type, pb.NoteSequence.TextAnnotation.CHORD_SYMBOL),
+            'annotation type CHORD_SYMBOL')
+    c.check(c.approx(ta.time, tm, 1e-9),
+            'chord symbol at the time it occurs (cursor + <offset>)')
   if tpl == 'single':
     c.cover('alteration crossing an octave boundary (C flat / B sharp)',
             c.Or(c.And(b.vals['n0_alter'] < 0, steps[0] == 'C'),
@@ -369,6 +471,16 @@ def jobs(tier):
   add(template='two_voices', divisions=4)
   add(template='two_measures', qpm=60, qpm2=120)
   add(template='two_parts', transpose=True)
+  add(template='retranspose', transpose=True)
+  add(template='harmony', harmony={'root': 'C', 'kind': 'major'})
+  add(template='harmony', harmony={'root': 'F', 'kind': 'minor-seventh',
+                                   'degree': [9, 'add'], 'bass': 'A'})
+  add(template='harmony', harmony={'root': 'B', 'kind': 'dominant',
+                                   'degree': [5, 'alter'], 'offset': True})
+  add(template='harmony', harmony={'root': 'G', 'kind': 'major-seventh',
+                                   'degree': [3, 'subtract'], 'bass': 'D',
+                                   'offset': True}, meter=[3, 4], qpm=90)
+  add(template='harmony', harmony={'root': 'D', 'kind': 'none'})
   # measure length in divisions equal to the meter numerator (pickup boundary)
   add(template='two_measures', divisions=1, meter=[4, 4], qpm=120, qpm2=120)
   add(template='two_measures', divisions=1, meter=[3, 4], qpm=120, qpm2=90)
@@ -379,7 +491,9 @@ def jobs(tier):
   if deep:
     for D in (1, 2, 4, 24):
       for meter in ([4, 4], [3, 4], [6, 8], [2, 2]):
-        if D * 4 * meter[0] % meter[1]:
+        if (D * 4) % meter[1]:
+          # the property quantifies over scores in which a beat is a whole
+          # number of divisions (6/8 needs even divisions)
           continue
         for qpm in (60, 97.3, 120):
           add(template='single', notes=2, steps=['E', 'B'], mode='minor',
@@ -390,6 +504,13 @@ def jobs(tier):
             qpm2=60, budget=1800)
         add(template='two_parts', divisions=D, meter=meter, transpose=True,
             budget=1800)
+        add(template='retranspose', divisions=D, meter=meter, transpose=True,
+            budget=1800)
+    for kind in sorted(_KIND):
+      for deg in (None, [9, 'add'], [5, 'alter'], [7, 'subtract']):
+        add(template='harmony', divisions=4, budget=900,
+            harmony={'root': 'ACEG'[len(kind) % 4], 'kind': kind,
+                     'degree': deg, 'bass': 'E', 'offset': True})
     add(template='single', notes=3, steps=['C', 'E', 'G'], mode='major',
         budget=3000, required=False)
   return J
